@@ -102,6 +102,10 @@ def module_state(repo):
                                                                  ('dict', 'list', 'set', 'collections.defaultdict', 'collections.OrderedDict')):
                 mut.add(n)
         mut.discard('__all__')
+        # objects that carry hidden state between calls: private random generators, counters, queues
+        stateful = {n for n, v in mod.globals.items() if isinstance(v, ast.Call) and (dotted(mod, v.func) or '') in
+                    ('random.Random', 'random.SystemRandom', 'numpy.random.default_rng', 'numpy.random.RandomState', 'numpy.random.Generator',
+                     'itertools.count', 'collections.deque', 'collections.Counter', 'threading.local')}
         writes = []
         for name, fd in mod.functions.items():
             glob = {g for n in ast.walk(fd) if isinstance(n, ast.Global) for g in n.names}
@@ -114,6 +118,9 @@ def module_state(repo):
                     tgt = n.func.value
                 if isinstance(tgt, ast.Name) and tgt.id in mut and tgt.id not in local:
                     writes.append("%s writes module-level %s at line %d" % (name, tgt.id, n.lineno))
+                if isinstance(n, ast.Call) and isinstance(n.func, ast.Attribute) and isinstance(n.func.value, ast.Name) and \
+                        n.func.value.id in stateful and n.func.value.id not in local:
+                    writes.append("%s advances the module-level stateful object %s (.%s) at line %d" % (name, n.func.value.id, n.func.attr, n.lineno))
             # rebinding a module-level name from inside a function (`global X; X = ...`)
             declared = {g for n in ast.walk(fd) if isinstance(n, ast.Global) for g in n.names}
             for n in ast.walk(fd):
